@@ -10,7 +10,7 @@ EXTENDS ForkChoice, Json
 CONSTANT MaxDepth
 
 VARIABLES hist, used, done
-gvars == <<nodes, votes, bal, just, fin, pin, hist, used, done>>
+gvars == <<nodes, votes, bal, just, fin, pin, detached, hist, used, done>>
 
 NV == 3
 MaxRoot == 9
@@ -24,7 +24,7 @@ Op(ev) == [ev |-> ev, obshead |-> 1]
 
 GenInit ==
     /\ nodes = <<NewNode(1, 0, 1, 0, 0)>>
-    /\ votes = <<>> /\ bal = <<10, 10, 10>>
+    /\ votes = <<>> /\ bal = <<10, 10, 10>> /\ detached = {}
     /\ just = CP(0, 1) /\ fin = CP(0, 1) /\ pin = <<1, 0>>
     /\ used = {1} /\ done = FALSE
     /\ hist = << [ev |-> "Init", spe |-> SPE, root |-> 1, slot |-> 0, parent |-> 1, j |-> CP(0, 1), f |-> CP(0, 1),
@@ -74,14 +74,14 @@ GUJ ==
        /\ just' = j /\ fin' = f /\ bal' = b
        /\ pin' = IF fin # f THEN <<>> ELSE pin
        /\ done' = (fin # f)       \* the behaviour ends with the pruning call
-       /\ UNCHANGED <<nodes, votes, used>>
+       /\ UNCHANGED <<nodes, votes, detached, used>>
        /\ Log([ev |-> "UpdateJustified", trigger |-> t, j |-> j, f |-> f, bal |-> b, balerr |-> 0, sinkfail |-> sf,
                obshead |-> 1])
 
 GUJRefused ==
     \E t \in {Pick(KnownRoots)}, j \in {Pick(ChainCPs \cup {CP(3, 1)})}, f \in {Pick(ChainCPs)} :
     /\ UJClass(Ctx, t, j, f, FALSE) # "updated"
-    /\ UNCHANGED <<nodes, votes, bal, just, fin, pin, used, done>>
+    /\ UNCHANGED <<nodes, votes, bal, just, fin, pin, detached, used, done>>
     /\ Log([ev |-> "UpdateJustified", trigger |-> t, j |-> j, f |-> f, bal |-> bal, balerr |-> 0, sinkfail |-> 0,
             obshead |-> 1])
 
@@ -96,13 +96,13 @@ GQuery ==
        a \in {Pick(Keys)}, k \in {Pick(Keys)}, wb \in {Pick({0, 1})} :
     /\ Log([ev |-> "Query", q |-> q, anchor |-> a[1], slot |-> (IF q \in {"CanonAtSlot", "ClosestToSlot"} THEN k[2] ELSE a[2]),
             root |-> k[1], withblock |-> wb, usepar |-> 1, parent |-> nodes[IdxOf(k)].parent, useslot |-> 0, fe |-> 0])
-    /\ UNCHANGED <<nodes, votes, bal, just, fin, pin, used, done>>
+    /\ UNCHANGED <<nodes, votes, bal, just, fin, pin, detached, used, done>>
 
 \* a complete behaviour is printed once by a final step, after which nothing is enabled
 Finish == /\ (done \/ Len(hist) >= MaxDepth) /\ hist # <<>>
           /\ PrintT(ToJson(hist))
           /\ hist' = <<>>
-          /\ UNCHANGED <<nodes, votes, bal, just, fin, pin, used, done>>
+          /\ UNCHANGED <<nodes, votes, bal, just, fin, pin, detached, used, done>>
 
 GenNext == \/ (~done /\ hist # <<>> /\ Len(hist) < MaxDepth
               /\ (GBlock \/ GBlock \/ GSlot \/ GAtt \/ GAtt \/ GUJ \/ GUJRefused \/ GPin \/ GQuery))
